@@ -69,6 +69,56 @@ TARGETS = {
         "exactly": "        ensures r.at_least == Some(n), r.at_most == Some(n),",
     }, ["C02", "C15"]),
 }
+# Units made of trait-impl methods of a foreign type (`impl Input for &[T]`): an inherent impl is impossible and
+# Verus cannot ingest the Input trait (GAT front-end crash), so each method is lifted to a free function: the
+# `unsafe` qualifier dropped, the impl's generics put on the function, and every associated-type projection
+# replaced by the definition the same impl gives it (`type Cursor = usize;` etc. - checked against the impl text on
+# every run). Bodies are byte-for-byte the repository's.
+FREE_UNITS = {
+    "slice_input": {
+        "props": ["C07", "C10"],
+        "generics": "<'src, T>",
+        # projection -> (definition used, regex that must be found in the defining impl)
+        "assoc": {
+            "Self::Cursor": ("usize", "src/input.rs", r"^impl<'src, T> Input<'src> for &'src \[T\] \{", r"type Cursor = usize;"),
+            "Self::Span": ("SimpleSpan<usize>", "src/input.rs", r"^impl<'src, T> Input<'src> for &'src \[T\] \{", r"type Span = SimpleSpan<usize>;"),
+            "Self::MaybeToken": ("&'src T", "src/input.rs", r"^impl<'src, T> Input<'src> for &'src \[T\] \{", r"type MaybeToken = &'src T;"),
+            "Self::Cache": ("&'src [T]", "src/input.rs", r"^impl<'src, T> Input<'src> for &'src \[T\] \{", r"type Cache = Self;"),
+            "Self::Slice": ("&'src [T]", "src/input.rs", r"^impl<'src, T> SliceInput<'src> for &'src \[T\] \{", r"type Slice = &'src \[T\];"),
+        },
+        "types": [("src/span.rs", r"^pub struct SimpleSpan<T = usize, C = \(\)> \{")],
+        # whole trait impls taken as they are (contract spliced into the one method)
+        "impls": [("src/span.rs", r"^impl<T> From<Range<T>> for SimpleSpan<T> \{", "from", "")],
+        "fns": [
+            ("src/input.rs", r"^impl<'src, T> Input<'src> for &'src \[T\] \{", "next_maybe",
+             "    requires old(this)@.len() <= usize::MAX,\n    ensures *final(this) == *old(this),\n        (*old(cursor) < old(this)@.len()) ==> (r == Some(&old(this)@[*old(cursor) as int]) && *final(cursor) == *old(cursor) + 1),\n        (*old(cursor) >= old(this)@.len()) ==> (r.is_none() && *final(cursor) == *old(cursor)),"),
+            ("src/input.rs", r"^impl<'src, T> Input<'src> for &'src \[T\] \{", "span",
+             "    ensures r.start == *range.start, r.end == *range.end, *final(_this) == *old(_this),"),
+            ("src/input.rs", r"^impl<'src, T> ExactSizeInput<'src> for &'src \[T\] \{", "span_from",
+             "    ensures r.start == *range.start, r.end == old(this)@.len(), *final(this) == *old(this),"),
+            ("src/input.rs", r"^impl<'src, T> SliceInput<'src> for &'src \[T\] \{", "full_slice",
+             "    ensures r@ == old(this)@, *final(this) == *old(this),"),
+            ("src/input.rs", r"^impl<'src, T> SliceInput<'src> for &'src \[T\] \{", "slice",
+             "    requires *range.start <= *range.end <= old(this)@.len(),\n    ensures r@ == old(this)@.subrange(*range.start as int, *range.end as int), *final(this) == *old(this),"),
+            ("src/input.rs", r"^impl<'src, T> SliceInput<'src> for &'src \[T\] \{", "slice_from",
+             "    requires *from.start <= old(this)@.len(),\n    ensures r@ == old(this)@.subrange(*from.start as int, old(this)@.len() as int), *final(this) == *old(this),"),
+        ],
+        # what `Range<T> -> SimpleSpan<T>` is specified to be (vstd's From contract is stated through this trait)
+        "prelude": """
+use core::ops::{Range, RangeFrom};
+impl<T> vstd::std_specs::convert::FromSpecImpl<Range<T>> for SimpleSpan<T, ()> {
+    open spec fn obeys_from_spec() -> bool { true }
+    open spec fn from_spec(v: Range<T>) -> Self { SimpleSpan { start: v.start, end: v.end, context: () } }
+}
+""",
+        "note": "trait-impl methods of `&'src [T]` (Input / ExactSizeInput / SliceInput) lifted to free functions generic over <'src, T>: `unsafe` dropped, associated-type projections replaced by the definitions the impls themselves give (each definition re-checked in the impl text on every run); `impl<T> From<Range<T>> for SimpleSpan<T>` and the struct SimpleSpan taken whole (derives dropped with the attributes); the specification of that conversion supplied through vstd's FromSpecImpl; `old(this)@.len() <= usize::MAX` is the type invariant of a Rust slice stated as a precondition; the preconditions of slice / slice_from are the documented safety contract of SliceInput (cursors generated by this input, start <= end)",
+    },
+}
+for _u, _d in FREE_UNITS.items():
+    TARGETS[_u] = (_d["fns"][0][0], None, None, {**{f[2]: f[3] for f in _d["impls"]}, **{f[2]: f[3] for f in _d["fns"]}}, _d["props"])
+    SPEC_PRELUDE[_u] = _d["prelude"]
+    OVERRIDES[_u] = {"note": _d["note"]}
+
 THEORY = {
     # lemma name -> properties it serves
     "lemma_fold_is_max": ["C06"], "lemma_fold_from_none": ["C06", "C20"], "lemma_fold_ids": ["C06"],
@@ -84,7 +134,47 @@ fn main() {}
 """
 
 
+def build_free_unit(unit, repo):
+    d = FREE_UNITS[unit]
+    srcs = {}
+
+    def src_of(file):
+        if file not in srcs:
+            srcs[file] = open(os.path.join(repo, file), errors="replace").read()
+        return srcs[file]
+
+    parts, where = [], []
+    for proj, (_defn, file, impl_re, def_re) in d["assoc"].items():
+        impl_text, _line, _ = extract.cut_item(src_of(file), impl_re)
+        if not re.search(def_re, impl_text):
+            raise extract.LostAnchor(f"{proj}: `{def_re}` no longer in {impl_re}")
+    for file, tr in d["types"]:
+        text, line, _ = extract.cut_item(src_of(file), tr)
+        # visibility kept (the specification of the conversion is a public spec function over this type)
+        parts.append("\n".join(l for l in text.split("\n") if not l.strip().startswith(("///", "#["))))
+        where.append(f"{file}:{line}")
+    for file, impl_re, fn, contract in d["impls"]:
+        impl_text, impl_line, _ = extract.cut_item(src_of(file), impl_re)
+        parts.append(extract.strip_attrs_docs_vis(impl_text))
+        where.append(f"{file}:{impl_line} (whole impl)")
+    for file, impl_re, fn, contract in d["fns"]:
+        impl_text, impl_line, _ = extract.cut_item(src_of(file), impl_re)
+        sig, fbody, off = extract.cut_fn(impl_text, r"(?:unsafe\s+)?fn\s+" + fn, raw=True)
+        sig = re.sub(r"\bunsafe\s+fn\b", "fn", sig)
+        sig = re.sub(r"\bfn\s+" + fn + r"\b", "fn " + fn + d["generics"], sig, count=1)
+        for proj, (defn, *_r) in d["assoc"].items():
+            sig = sig.replace(proj, defn)
+            if proj in fbody:
+                raise extract.LostAnchor(f"{fn}: body mentions {proj}")
+        parts.append(extract.with_contract(sig, fbody, contract))
+        where.append(f"{file}:{impl_line + off} fn {fn}")
+    text = "use vstd::prelude::*;\nverus! {\n" + SPEC_PRELUDE[unit] + "\n" + "\n\n".join(parts) + "\n} // verus!\nfn main() {}\n"
+    return text, where
+
+
 def build_unit(unit, repo):
+    if unit in FREE_UNITS:
+        return build_free_unit(unit, repo)
     file, type_res, impl_re, fns, _ = TARGETS[unit]
     src = open(os.path.join(repo, file), errors="replace").read()
     parts, where = [], []
@@ -125,11 +215,22 @@ def run_verus(path, work):
     return p.returncode, res, p.stderr, dt
 
 
-def failed_fns(stderr):
-    """names of functions mentioned in Verus error spans"""
+def failed_fns(stderr, text=None):
+    """names of functions mentioned in Verus error spans; with the verified text given, also the function that
+    encloses each reported line (`--> file:LINE:COL`)"""
     names = set()
     for m in re.finditer(r"fn (\w+)", stderr):
         names.add(m.group(1))
+    if text is not None:
+        lines = text.split("\n")
+        for m in re.finditer(r"--> [^\n:]+:(\d+):\d+", stderr):
+            i = min(int(m.group(1)), len(lines)) - 1
+            while i >= 0:
+                mm = re.search(r"\bfn\s+(\w+)", lines[i])
+                if mm:
+                    names.add(mm.group(1))
+                    break
+                i -= 1
     return names
 
 
@@ -157,7 +258,7 @@ def run(pid, tier, repo, work):
             for fn in fns:
                 out["obligations"].append({"name": f"{unit}::{fn}", "status": "verified"})
         elif vr.get("errors", 0) > 0 and vr.get("success") is False and "error: " in err and not re.search(r"error(\[E\d+\])?: (?!postcondition|precondition|assertion|possible arithmetic|this|unable)", err.replace("error: aborting", "")):
-            bad = failed_fns(err) & set(fns)
+            bad = failed_fns(err, text) & set(fns)
             for fn in fns:
                 if fn in bad or not bad:
                     out["obligations"].append({"name": f"{unit}::{fn}", "status": "failed", "message": err[-2500:]})
